@@ -93,7 +93,7 @@ def regConns (S : FlatSrc) (r : RegSrc) : List (String × Expr) :=
   [("q", .id (S.nm r.leaf.q))]
 
 def childItem (S : FlatSrc) : Child → Item
-  | .prim k => .assign (k.lhs S.wd S.nm) (k.rhs S.nm)
+  | .prim k => .assign (k.lhs S.wd S.nm) (k.rhs S.wd S.nm)
   | .reg r => .inst r.mname r.iname [] (S.regConns r)
 
 def topModule (S : FlatSrc) : Module :=
@@ -116,6 +116,11 @@ def Kind.okb (wd : Nat → Nat) : Kind → Bool
   | .shl _ n _ => decide (n < 2 ^ 32)
   | .shr _ n _ => decide (n < 2 ^ 32)
   | .range a hi lo _ => decide (lo ≤ hi) && decide (hi < wd a)
+  | .catm ins _ => !ins.isEmpty
+  | .catl ins _ => !ins.isEmpty
+  | .rept i r => decide (wd i = 1) && decide (1 ≤ wd r)
+  | .sext a _ => decide (1 ≤ wd a) && decide (wd a - 1 < 2 ^ 32)
+  | .smul a b _ => decide (1 ≤ wd a) && decide (1 ≤ wd b)
   | _ => true
 
 /-- `order` lists leaf indices sources first: nobody at or after a leaf drives one of its inputs, outputs distinct, no index twice -/
